@@ -240,7 +240,9 @@ func (db *PreparedStmtDB) QueryRowContext(ctx context.Context, query string, arg
 	if err == nil {
 		return stmt.QueryRowContext(ctx, args...)
 	}
-	return &sql.Row{}
+	// an empty sql.Row cannot carry the error (Scan on it dereferences nil): let the connection pool
+	// build the row, which reports a failing statement through Scan
+	return db.ConnPool.QueryRowContext(ctx, query, args...)
 }
 
 func (db *PreparedStmtDB) Ping() error {
@@ -317,7 +319,7 @@ func (tx *PreparedStmtTX) QueryRowContext(ctx context.Context, query string, arg
 	if err == nil {
 		return tx.Tx.StmtContext(ctx, stmt.Stmt).QueryRowContext(ctx, args...)
 	}
-	return &sql.Row{}
+	return tx.Tx.QueryRowContext(ctx, query, args...)
 }
 
 func (tx *PreparedStmtTX) Ping() error {
